@@ -317,6 +317,19 @@ def gen_track_create(rng, st, rich=False):
     return {"op": "create_track", "as": h, "snap": s}, {"kind": "create_track", "h": h}
 
 
+def gen_foreign_reorder(rng, st):
+    """2.x: a foreign writer (Engine DJ, when the user drags the last item to the top) re-links a chain."""
+    lc = st.live_crates()
+    if not lc:
+        return None, None
+    if rng.random() < 0.6:
+        full = [c for c in lc if sum(1 for a, b in st.members if a == c and st.tracks.get(b)) >= 2]
+        c = rng.choice(full or lc)
+        return {"op": "foreign_reorder", "c": c}, {"kind": "foreign_reorder_entries", "c": c}
+    p = rng.choice(lc + [None])
+    return {"op": "foreign_reorder", "siblings_of": p}, {"kind": "foreign_reorder_siblings", "parent": p}
+
+
 def gen_membership_op(rng, st):
     lc, lt = st.live_crates(), st.live_tracks()
     r = rng.random()
